@@ -54,7 +54,8 @@ def dictGet (d : List (List Char × α)) (k : List Char) : Option α := (d.find?
 def dictSet (d : List (List Char × α)) (k : List Char) (v : α) : List (List Char × α) :=
   (k, v) :: d.filter (·.1 != k)
 
-def lookupS (t : List (String × String)) (k : String) : Option String := (t.find? (·.1 == k)).map (·.2)
+def lookupS (t : List (String × List Char)) (k : String) : Option (List Char) := (t.find? (·.1 == k)).map (·.2)
+def lookupC (t : List (List Char × String)) (k : List Char) : Option String := (t.find? (·.1 == k)).map (·.2)
 
 /-- `re.match(r".+(f\d)", key)`: group 1 is the last `f`+digit that starts at index ≥ 1 -/
 def lastFanToken (key : List Char) : Option (List Char) :=
@@ -78,47 +79,57 @@ def featGet (fs : List (String × Features)) (m : String) : Option Features := (
 def featSet (fs : List (String × Features)) (m : String) (f : Features) : List (String × Features) :=
   if fs.any (·.1 == m) then fs.map (fun p => if p.1 == m then (m, f) else p) else fs ++ [(m, f)]
 
-/-- one iteration of the loop in `_resolve_capabilities` -/
-def capStep (separated : Bool) (s : CapState) (w : Wave) : Py CapState := do
-  let key := w.key
-  -- try: mode = COMMAND_TO_MODE[key[0:2]] … except KeyError: pass
-  let (mode, features) :=
-    match lookupS Gen.commandToMode (String.ofList (slice key 0 2)) with
-    | some m =>
-      if (featGet s.features m).isNone then
-        (some m, featSet s.features m { swing := separated, fans := [], tempControl := false })
-      else (some m, s.features)
-    | none => (s.mode, s.features)
-  -- fan level
-  let features ← match lastFanToken key, mode with
-    | some tok, some m =>
-      match lookupS Gen.commandToFanLevel (String.ofList tok) with
-      | some lvl =>
-        match featGet features m with
-        | some f => pure (featSet features m { f with fans := if f.fans.contains lvl then f.fans else f.fans ++ [lvl] })
-        | none => throw .keyError
+/-- the `try: mode = COMMAND_TO_MODE[key[0:2]] … except KeyError: pass` part of one loop iteration -/
+def stepMode (separated : Bool) (s : CapState) (key : List Char) : Option String × List (String × Features) :=
+  match lookupC Gen.commandToMode (slice key 0 2) with
+  | some m =>
+    if (featGet s.features m).isNone then
+      (some m, featSet s.features m { swing := separated, fans := [], tempControl := false })
+    else (some m, s.features)
+  | none => (s.mode, s.features)
+
+/-- the fan-level part: `COMMAND_TO_FAN_LEVEL[group(1)]` raises KeyError for a level the table does not know -/
+def stepFan (mode : Option String) (features : List (String × Features)) (key : List Char) : Py (List (String × Features)) :=
+  match lastFanToken key, mode with
+  | some tok, some m =>
+    match lookupC Gen.commandToFanLevel tok with
+    | some lvl =>
+      match featGet features m with
+      | some f => pure (featSet features m { f with fans := if f.fans.contains lvl then f.fans else f.fans ++ [lvl] })
       | none => throw .keyError
-    | _, _ => pure features
-  -- temperature
-  let temp := slice key 2 4
-  let isDigit := !temp.isEmpty && temp.all isAsciiDigit
-  let features := if isDigit then
+    | none => throw .keyError
+  | _, _ => pure features
+
+def keyTempText (key : List Char) : List Char := slice key 2 4
+def keyHasTemp (key : List Char) : Bool := !(keyTempText key).isEmpty && (keyTempText key).all isAsciiDigit
+def keyTempVal (key : List Char) : Int := decVal (keyTempText key)
+
+def newMax (cur : Int) (key : List Char) : Int := if keyHasTemp key && keyTempVal key > cur then keyTempVal key else cur
+def newMin (cur : Int) (key : List Char) : Int := if keyHasTemp key && keyTempVal key < cur then keyTempVal key else cur
+
+/-- temperature-control and swing flags of the current mode -/
+def stepFlags (mode : Option String) (features : List (String × Features)) (key : List Char) : List (String × Features) :=
+  let features := if keyHasTemp key then
       match mode with
       | some m => match featGet features m with
         | some f => featSet features m { f with tempControl := true }
         | none => features
       | none => features
     else features
-  let t : Int := decVal temp
-  let maxTemp := if isDigit && t > s.maxTemp then t else s.maxTemp
-  let minTemp := if isDigit && t < s.minTemp then t else s.minTemp
-  -- swing
-  let features := match mode with
-    | some m => match featGet features m with
-      | some f => featSet features m { f with swing := f.swing || containsSub key cs!"d1" }
-      | none => features
+  match mode with
+  | some m => match featGet features m with
+    | some f => featSet features m { f with swing := f.swing || containsSub key cs!"d1" }
     | none => features
-  pure { mode, minTemp, maxTemp, features, waveMap := dictSet s.waveMap key (w.para, w.hexCode) }
+  | none => features
+
+/-- one iteration of the loop in `_resolve_capabilities` -/
+def capStep (separated : Bool) (s : CapState) (w : Wave) : Py CapState :=
+  let (mode, f1) := stepMode separated s w.key
+  match stepFan mode f1 w.key with
+  | .error e => .error e
+  | .ok f2 =>
+    .ok { mode, minTemp := newMin s.minTemp w.key, maxTemp := newMax s.maxTemp w.key,
+          features := stepFlags mode f2 w.key, waveMap := dictSet s.waveMap w.key (w.para, w.hexCode) }
 
 /-- `SwitcherBreezeRemote.__init__` -/
 def mkRemote (ir : IrSet) : Py Remote := do
@@ -160,11 +171,11 @@ def keyParts (r : Remote) (state mode : String) (targetTemp : Int) (fan swing : 
   let sw : List (List Char) := if swing == "ON" then [cs!"_d1"] else []
   if mode == "AUTO" || mode == "DRY" || mode == "FAN" then
     match lookupS Gen.modeToCommand mode, lookupS Gen.fanLevelToCommand fan with
-    | some mc, some fc => pure (pre ++ [mc.toList, ('_' :: fc.toList)] ++ sw)
+    | some mc, some fc => pure (pre ++ [mc, ('_' :: fc)] ++ sw)
     | _, _ => throw .keyError
   else if mode == "COOL" || mode == "HEAT" then
     match lookupS Gen.modeToCommand mode, lookupS Gen.fanLevelToCommand fan with
-    | some mc, some fc => pure (pre ++ [mc.toList, Tmpl.intText (clampTemp r targetTemp), ('_' :: fc.toList)] ++ sw)
+    | some mc, some fc => pure (pre ++ [mc, Tmpl.intText (clampTemp r targetTemp), ('_' :: fc)] ++ sw)
     | _, _ => throw .keyError
   else pure pre
 
